@@ -11,7 +11,9 @@ import msglayer_gen as G
 import msglayer_props as P
 from common import load_corpus
 
-RULE = ("boundary scripts (3 CON + 1 NON to A, 1 CON to B with ACK/RST/piggyback/silence/error variants) + "
+RULE = ("(oracle-only part: the same random interleavings with a window in which sendmsg() to one endpoint "
+        "raises, i.e. transport errors reported synchronously during first transmissions, retransmissions and "
+        "backlog release - outside the Lean model, judged by the oracle) boundary scripts (3 CON + 1 NON to A, 1 CON to B with ACK/RST/piggyback/silence/error variants) + "
         "random interleavings of 2-8 submits to 1-3 endpoints. Non-trivial: at least one message was held "
         "back (first transmission later than its submission); distinct by concrete trace.")
 TRUSTED = ["virtual-clock event loop and fake-socket UDP stack of the harness (vloop.py, netsim.py)"]
@@ -22,6 +24,7 @@ def scripts(env):
     out = [c["script"] for _, c in load_corpus("C14") if "script" in c]
     out += G.c14_boundary()
     out += [G.c14_random(env.rng) for _ in range(env.scale(150, 4000))]
+    out += [G.c14_sendfail(env.rng) for _ in range(env.scale(120, 3000))]
     return out
 
 
